@@ -69,7 +69,7 @@ func init() {
 		NotDecided: "implicit index panics with non-constant indices, loop termination, 'nothing from a rejected packfile is left referenced'.",
 	}
 	props["C05"] = &propSpec{
-		Rules:      []string{"C05-a", "C05-b", "C05-c", "C05-d", "C05-e"},
+		Rules:      []string{"C05-a", "C05-b", "C05-c", "C05-d", "C05-e", "C05-f"},
 		Decides:    "Decides column-layout consistency of the merge result pipeline: every row added to RowCollector.resolvedRows and every key-position vector stored into its PK comes from the merged layout (ColDiff.RearrangeRow/RearrangeBaseRow/PKIndices, Merge.ResolvedRow) and is never a row of a stored block or objects.Table.PK passed on unchanged. This is a necessary condition of 'rows untouched by every branch appear unchanged under their own column names wherever the key column sits'. Does not decide cell-wise resolution, conflict marking, commutativity, keyless tables or renamed columns. Two known findings (not repairable without editing a test that pins the defect). Also decided: every per-branch diff channel handed to mergeTables reports unchanged rows (DiffTables with WithEmitUnchangedRow), and merge commands return success only behind Merger.Error()==nil.",
 		NotDecided: "the cell-wise resolution rules, conflict marking, commutativity, keyless tables and renamed columns (value-dependent).",
 	}
